@@ -69,9 +69,9 @@ Print Assumptions C03_general_image_length.
 
 Theorem C03_sized_instr : forall (E : encoder) m st dol s op ops n b,
   enc_est E (bmode s) op ops = Some n -> enc_kind_ok E op = true ->
-  emitted E m st dol (OInstr op ops) (loc s - dol) = Some b -> zlen b = n ->
+  emitted E m st dol (OInstr (bmode s) op ops) (loc s - dol) = Some b -> zlen b = n ->
   - 2 ^ 31 <= loc s + n < 2 ^ 31 ->
-  sized E m st dol s (push_ocode (add_loc (with_diag s (enc_diag E (bmode s) op ops)) n) (OInstr op ops)).
+  sized E m st dol s (push_ocode (add_loc (with_diag s (enc_diag E (bmode s) op ops)) n) (OInstr (bmode s) op ops)).
 Proof. exact sized_instr. Qed.
 
 (* instances of [sized] proved for all inputs: DB/DW/DD with any operand list, RESB, INT, and JMP/Jcc/CALL to a label in
@@ -85,7 +85,7 @@ Proof. exact sized_resb. Qed.
 Theorem C03_sized_int : forall (E : encoder) m st dol s v, 0 <= v <= 255 -> loc s + 2 < 2 ^ 31 -> - 2 ^ 31 <= loc s -> sized E m st dol s (do_int s [ENum v]).
 Proof. exact sized_int. Qed.
 Theorem C03_sized_branch16 : forall (E : encoder) m st dol s name op r lbl d,
-  m = M16 -> bmode s = M16 ->
+  bmode s = M16 ->
   eval_top (env_of s) op = Ev (EImm (FId lbl)) r ->
   lookup lbl st = Some d ->
   (name = "JMP"%string /\ -126 <= d - loc s <= 129
@@ -96,7 +96,7 @@ Theorem C03_sized_branch16 : forall (E : encoder) m st dol s name op r lbl d,
 Proof. exact sized_branch16. Qed.
 (* 32-bit mode: every JMP / Jcc / CALL to a label, at every distance (the rel32 forms are what pass 1 reserves) *)
 Theorem C03_sized_branch32 : forall (E : encoder) m st dol s name op r lbl d,
-  m = M32 -> bmode s = M32 ->
+  bmode s = M32 ->
   eval_top (env_of s) op = Ev (EImm (FId lbl)) r ->
   lookup lbl st = Some d ->
   (name = "JMP"%string \/ name = "CALL"%string
